@@ -273,6 +273,10 @@ type Collector struct {
 	CloseErr error
 	OnTick   func()
 	OnClose  func() // gate, called on entry to Close
+	// NoWait makes Close return without waiting for a callback in progress
+	// (a collector written like the repository's own test collectors). Only
+	// for checks that do not assert "no handler after Close returned".
+	NoWait bool
 }
 
 // Start implements stun.Collector.
@@ -292,6 +296,15 @@ func (c *Collector) Start(_ time.Duration, f func(now time.Time)) error {
 func (c *Collector) Close() error {
 	if c.OnClose != nil {
 		c.OnClose()
+	}
+	if c.NoWait {
+		c.mu.Lock()
+		c.Closed++
+		c.closed = true
+		err := c.CloseErr
+		c.mu.Unlock()
+
+		return err
 	}
 	c.run.Lock()
 	c.mu.Lock()
